@@ -197,7 +197,10 @@ def build_spec(arch_kind, wl_kind, sk, arch_opts=None, bounds=None, tile_shapes=
     for i, it in enumerate(sk):
         if it[0] == "S":
             cls = MToll if kinds[it[1]] == "toll" else Storage
-            nodes.append(cls(tensors=[it[2]], component=it[1]))
+            nd = cls(tensors=[it[2]], component=it[1])
+            if it[2] in arch_opts.get("persistent", ()) and not any(x[0] == "S" and x[2] == it[2] for x in sk[:i]):
+                nd.persistent = True       # the outermost holder of a persistent tensor
+            nodes.append(nd)
         else:
             if one[i]:
                 ts = 1
